@@ -25,6 +25,9 @@ def main(argv):
     bad = []
     for n in names:
         meta = json.load(open(os.path.join(SEEDED, n, "meta.json")))
+        if meta.get("patch_applies_to_current_tree") is False:
+            print(f"{n}: skipped (patch predates a repair of /repo and no longer applies)", flush=True)
+            continue
         checks = meta.get("checks", {})
         reporting = [p for p, c in checks.items() if c.get("result") == "reported"]
         by_decision = str(meta.get("first_result", "")).startswith("NOT DETECTED")
